@@ -1100,3 +1100,42 @@ V("C12", "benign_setter_private_alias", "benign", None, (Z, """                _
                 _old = private.values.get(name, self.default)
                 private.values[name] = val
         if relink:"""))
+
+# update model
+V("C05", "update_event_mode_skipped_for_unassigned", "fire", "R05.*", (Z, """                for tp in trigger_params:
+                    p = self_[tp]
+                    p._mode = 'reset'""", """                for tp in trigger_params:
+                    if tp not in kwargs or list(kwargs).index(tp) > 0:
+                        continue
+                    p = self_[tp]
+                    p._mode = 'reset'"""))
+V("C04", "update_restore_skips_identical_values", "fire", "R04.*", (Z, "            restore = {k: values[k] for k, v in kwargs.items() if k in values}", "            restore = {k: values[k] for k, v in kwargs.items() if k in values and values[k] is not v}"))
+V("C02", "rejected_update_flushes_in_batch", "fire", "R02.u", (Z, """        try:
+            values = self_.values()
+            restore = {k: values[k] for k, v in kwargs.items() if k in values}
+
+            for (k, v) in kwargs.items():
+                if k not in self_:
+                    raise ValueError(f"{k!r} is not a parameter of {self_.cls.__name__}")
+                setattr(self_or_cls, k, v)
+        finally:
+            # Whether or not a value was rejected, leave the batching
+            # state as we found it and announce what has been applied.
+            self_._BATCH_WATCH = BATCH_WATCH
+            try:
+                if not BATCH_WATCH:""", """        rejected = True
+        try:
+            values = self_.values()
+            restore = {k: values[k] for k, v in kwargs.items() if k in values}
+
+            for (k, v) in kwargs.items():
+                if k not in self_:
+                    raise ValueError(f"{k!r} is not a parameter of {self_.cls.__name__}")
+                setattr(self_or_cls, k, v)
+            rejected = False
+        finally:
+            # Whether or not a value was rejected, leave the batching
+            # state as we found it and announce what has been applied.
+            self_._BATCH_WATCH = BATCH_WATCH
+            try:
+                if rejected or not BATCH_WATCH:"""))
